@@ -102,3 +102,38 @@ pub proof fn lemma_mod_mod_pow2(t: int, m: nat, k: nat)
     lemma_pow2_adds(m, (k - m) as nat);
     lemma_mod_mod(t, pow2(m) as int, pow2((k - m) as nat) as int);
 }
+
+/// final step of an addition: v + c*2^K == x + y, v < 2^K, len <= K, y == yr (mod 2^len)  ==>  v mod 2^len == (x + yr) mod 2^len
+pub proof fn lemma_add_final(v: nat, c: nat, kk: nat, len: nat, x: nat, y: nat, yr: nat)
+    requires v + c * pow2(kk) == x + y, v < pow2(kk), len <= kk, y % pow2(len) == yr % pow2(len)
+    ensures v % pow2(len) == (x + yr) % pow2(len)
+{
+    lemma_pow2_pos(kk); lemma_pow2_pos(len);
+    lemma_sum_mod(v, c, pow2(kk), x + y);
+    lemma_mod_mod_pow2((x + y) as int, len, kk);
+    lemma_add_mod_noop_right(x as int, y as int, pow2(len) as int);
+    lemma_add_mod_noop_right(x as int, yr as int, pow2(len) as int);
+}
+/// final step of a subtraction (mathematical modulus)
+pub proof fn lemma_sub_final(v: nat, c: nat, kk: nat, len: nat, x: nat, y: nat, yr: nat)
+    requires v as int - (c as int) * (pow2(kk) as int) == x as int - y as int, v < pow2(kk), len <= kk, y % pow2(len) == yr % pow2(len)
+    ensures (v % pow2(len)) as int == (x as int - yr as int) % (pow2(len) as int)
+{
+    lemma_pow2_pos(kk); lemma_pow2_pos(len);
+    lemma_diff_mod(v, c, pow2(kk), x, y);
+    lemma_mod_mod_pow2(x as int - y as int, len, kk);
+    lemma_sub_mod_noop_right(x as int, y as int, pow2(len) as int);
+    lemma_sub_mod_noop_right(x as int, yr as int, pow2(len) as int);
+}
+/// a bit function that is zero at and above `lim`, read up to k bits, agrees mod 2^m with its full value
+pub proof fn lemma_fval_trunc_cong(g: spec_fn(int) -> bool, lim: nat, k: nat, m: nat)
+    requires m <= k, forall|b: int| lim <= b ==> !#[trigger] g(b)
+    ensures fval(g, k) % pow2(m) == fval(g, lim) % pow2(m)
+{
+    if lim <= k {
+        lemma_fval_zero_above(g, lim, k);
+    } else {
+        lemma_fval_mod(g, k, lim);
+        lemma_mod_mod_pow2(fval(g, lim) as int, m, k);
+    }
+}
